@@ -49,7 +49,7 @@ add("C03", ["v_derive_arith"], ["evo_"],
     level_text="For each generated evolution history and each pair i<j: bytes written by the version-i definition (cross-checked with the reference encoding) load in the version-j definition with retained fields equal, removed fields skipped, added fields defaulted, converted fields converted -- for all values (Kani, loop-free => complete per pair).",
     level_note="Bounded over definitions: 6 histories (add with default_val/default_fn/Default, Removed, AbiRemoved, versions_as conversion, add-then-convert, add-then-remove, enum variant appended).",
     technique="Kani contract harnesses over a generated history family", trusted_base=TB, programs=20)
-add("C04", ["v_derive_arith"], ["fam_packed_", "fam_vec_"],
+add("C04", ["v_derive_arith"], ["fam_packed_", "fam_vec_", "packed_tuples_"],
     level_text="Decision soundness: Packed::repr_c_optimization_safe(v).is_yes() ==> size_of == |enc| and memory image == field-wise encoding, for all values and all versions <= current, per family member (Kani, complete). Transparency: Vec<T> bytes == length ++ element encodings and loads element-wise equal (bounded: length 2). min_safe_version arithmetic proved by Verus.",
     level_note="Bounded over definitions; Vec length 2. Box<[T]>, Arc<[T]>, [T;N], ArrayVec share the Packed decision but their bulk paths are not separately harnessed.",
     technique="Kani contract harnesses per type; Verus contract on AttrsResult::min_safe_version", trusted_base=TB)
@@ -94,7 +94,7 @@ add("C17", ["v_introspect"], ["intro_"],
     level_text="total_index(i) is Some <==> i < total_len() for every well-formed result (Verus, unbounded, real function text); derive-generated Introspect: children exist exactly below introspect_len() for all indices and all values (Kani, per family member).",
     level_note="Kani: introspect_child(i) is Some <==> i < introspect_len() for ALL indices, per derive-family member (complete per type, bounded over definitions). Hand-written Introspect impls and Introspector navigation (well-formedness of its results): bounded native runs only.",
     technique="Verus function contracts", trusted_base=TB)
-add("C18", ["v_derive_arith"], ["older_", "fam_older_", "fam_packed_"],
+add("C18", ["v_derive_arith"], ["older_", "fam_older_", "fam_packed_", "packed_tuples_"],
     only=lambda n: not n.startswith("fam_packed_") or n.startswith("fam_packed_H") or n in ("fam_packed_SVerOrder", "fam_packed_SAbiRem", "fam_packed_SUpperBound"),
     level_text="For histories with AbiRemoved/added fields: the version-n definition writing version k produces exactly the version-k definition's bytes for the projected value and the version-k definition reads it back (all values); packed decision sound at every older version.",
     level_note="Bounded over definitions. Enum variants absent at k not covered.",
